@@ -24,6 +24,7 @@ inductive Err where
   | badMember      -- "expect multipoint to contains points …" and friends
   | badHex         -- hex.Decode errors wrapped by Scan
   | unsupportedDataType
+  | nestingTooDeep -- collections nested more than MaxCollectionDepth deep
 deriving DecidableEq, Repr, Inhabited
 
 abbrev Bytes := List UInt8
@@ -142,6 +143,47 @@ where
     | [] => []
     | g :: gs => encGeom o 0 g ++ encList o gs
 
+/-! `encGeom` appends the encoding of every member to the rest of its collection with `++`, which copies
+    the member: quadratic in the nesting depth (minutes for the collections nested 10000 deep and more that
+    the round-trip cases of C01 use).  The compiled driver runs an accumulator twin; kernel-checked
+    `@[csimp]` equation, every theorem is about `encGeom`. -/
+
+def encGeomAcc (o : Order) (srid : Nat) (g : G) (acc : Bytes) : Bytes :=
+  match g with
+  | .collection gs =>
+    orderByte o :: (typePrefix o wkb_geometryCollectionType gs.length srid ++ encListAcc o gs acc)
+  | g => encGeom o srid g ++ acc
+where
+  encListAcc (o : Order) : List G → Bytes → Bytes
+    | [], acc => acc
+    | g :: gs, acc => encGeomAcc o 0 g (encListAcc o gs acc)
+
+theorem encGeomAcc_eq (o : Order) : ∀ (srid : Nat) (g : G) (acc : Bytes),
+    encGeomAcc o srid g acc = encGeom o srid g ++ acc
+  | srid, .collection gs, acc => by
+    simp only [encGeomAcc, encGeom, encListAcc_eq o gs acc, List.cons_append, List.append_assoc]
+  | _, .point _, _ => by simp only [encGeomAcc]
+  | _, .multiPoint _, _ => by simp only [encGeomAcc]
+  | _, .lineString _, _ => by simp only [encGeomAcc]
+  | _, .multiLineString _, _ => by simp only [encGeomAcc]
+  | _, .ring _, _ => by simp only [encGeomAcc]
+  | _, .polygon _, _ => by simp only [encGeomAcc]
+  | _, .multiPolygon _, _ => by simp only [encGeomAcc]
+  | _, .bound _ _, _ => by simp only [encGeomAcc]
+where
+  encListAcc_eq (o : Order) : ∀ (gs : List G) (acc : Bytes),
+      encGeomAcc.encListAcc o gs acc = encGeom.encList o gs ++ acc
+    | [], acc => by simp only [encGeomAcc.encListAcc, encGeom.encList, List.nil_append]
+    | g :: gs, acc => by
+      simp only [encGeomAcc.encListAcc, encGeom.encList, encGeomAcc_eq o 0 g, encListAcc_eq o gs acc,
+        List.append_assoc]
+
+def encGeomFast (o : Order) (srid : Nat) (g : G) : Bytes := encGeomAcc o srid g []
+
+@[csimp] theorem encGeom_eq_fast : @encGeom = @encGeomFast := by
+  funext o srid g
+  simp only [encGeomFast, encGeomAcc_eq, List.append_nil]
+
 /-- `Marshal`: a nil interface and typed nil slices write no bytes. -/
 def encode (o : Order) (srid : Nat) : GVal UInt64 → Bytes
   | .nilIface => []
@@ -158,6 +200,16 @@ where
   canonList : List G → List G
     | [] => []
     | g :: gs => canon g :: canonList gs
+
+/-- How deep geometry collections are nested in a value: 0 for the eight other kinds, 1 for a
+    collection without collection members, … (what `MaxCollectionDepth` limits). -/
+def collDepth : G → Nat
+  | .collection gs => 1 + collDepthList gs
+  | _ => 0
+where
+  collDepthList : List G → Nat
+    | [] => 0
+    | g :: gs => max (collDepth g) (collDepthList gs)
 
 /-! ### byte-slice decoder (Unmarshal and the Scan* functions) -/
 
@@ -258,7 +310,7 @@ where
 def polyStride (p : List (List (Pt UInt64))) : Nat := 9 + (p.map fun r => 4 + 16 * r.length).sum
 
 /-- Member loop shared by `unmarshalMultiPoint`, `unmarshalMultiLineString`, `unmarshalMultiPolygon`:
-    `x, _, err := ScanX(data)` then `data = data[stride(x):]` with the *re-derived* stride
+    the member is scanned, then `data = data[stride(x):]` with the *re-derived* stride
     (21, `16*len(ls)+9`, `9+Σ(4+16 len r)`), which panics if the slice is shorter than that. -/
 def memberLoop {β : Type} (scan : Bytes → R (β × Nat)) (stride : β → Nat) : Nat → Bytes → R (List β)
   | 0, _ => .ok []
@@ -275,6 +327,20 @@ def memberLoop {β : Type} (scan : Bytes → R (β × Nat)) (stride : β → Nat
       | .panic s => .panic s
     | .err e => .err e
     | .panic s => .panic s
+
+/-- A member of a multi in the byte-slice decoders: `unmarshalByteOrderType`, then the type must be
+    the plain member type (`ErrIncorrectGeometry` otherwise — in particular for a nested multi), then
+    the plain decoder.  The member's SRID is returned but ignored by the loop. -/
+def scanMember {β : Type} (tSingle : Nat) (single : Order → Bytes → R β) (data : Bytes) : R (β × Nat) :=
+  match unmarshalBOT data with
+  | .ok (o, typ, srid, geomData) =>
+    if typ ≠ tSingle then .err .incorrectGeometry else
+    match single o geomData with
+    | .ok p => .ok (p, srid)
+    | .err e => .err e
+    | .panic s => .panic s
+  | .err e => .err e
+  | .panic s => .panic s
 
 /-- Shape shared by `ScanPoint`, `ScanLineString`, `ScanPolygon`: accept the single type, or a
     multi with exactly one member. -/
@@ -297,32 +363,28 @@ def scanSingle {β : Type} (tSingle tMulti : Nat) (single : Order → Bytes → 
   | .err e => .err e
   | .panic s => .panic s
 
-/-- Shape shared by the three `unmarshalMulti*`: count, then the member loop.
-    The Scan*/unmarshalMulti* pairs are mutually recursive in Go (a Scan* accepts a one-member
-    multi whose decoder calls Scan* per member); `fuel` bounds that nesting and
-    `fuel = len(data)` always suffices (theorem `*_fuel_irrelevant` / totality). -/
-def unmarshalMultiF {β : Type} (tSingle tMulti : Nat) (single : Order → Bytes → R β) (stride : β → Nat) :
-    Nat → Order → Bytes → R (List β)
-  | 0, _, _ => .panic "fuel"
-  | fuel+1, o, data =>
-    if data.length < 4 then .err .notWKB else
-    memberLoop (scanSingle tSingle tMulti single (unmarshalMultiF tSingle tMulti single stride fuel)) stride
-      (rd32 o data) (data.drop 4)
+/-- Shape shared by the three `unmarshalMulti*`: count, then the member loop.  Nothing here is
+    recursive: a member is decoded by the plain decoder of its type (`scanMember`), so the Go call
+    depth of the byte-slice path is a constant (`Unmarshal`/`Scan*` → `unmarshalMulti*` → `unmarshal*`). -/
+def unmarshalMultiF {β : Type} (tSingle : Nat) (single : Order → Bytes → R β) (stride : β → Nat)
+    (o : Order) (data : Bytes) : R (List β) :=
+  if data.length < 4 then .err .notWKB else
+  memberLoop (scanMember tSingle single) stride (rd32 o data) (data.drop 4)
 
-def unmarshalMultiPoint (fuel : Nat) : Order → Bytes → R (List (Pt UInt64)) :=
-  unmarshalMultiF wkb_pointType wkb_multiPointType unmarshalPoint (fun _ => 21) fuel
-def scanPoint (fuel : Nat) : Bytes → R (Pt UInt64 × Nat) :=
-  scanSingle wkb_pointType wkb_multiPointType unmarshalPoint (unmarshalMultiPoint fuel)
+def unmarshalMultiPoint : Order → Bytes → R (List (Pt UInt64)) :=
+  unmarshalMultiF wkb_pointType unmarshalPoint (fun _ => 21)
+def scanPoint : Bytes → R (Pt UInt64 × Nat) :=
+  scanSingle wkb_pointType wkb_multiPointType unmarshalPoint unmarshalMultiPoint
 
-def unmarshalMultiLineString (fuel : Nat) : Order → Bytes → R (List (List (Pt UInt64))) :=
-  unmarshalMultiF wkb_lineStringType wkb_multiLineStringType unmarshalPoints (fun ls => 16 * ls.length + 9) fuel
-def scanLineString (fuel : Nat) : Bytes → R (List (Pt UInt64) × Nat) :=
-  scanSingle wkb_lineStringType wkb_multiLineStringType unmarshalPoints (unmarshalMultiLineString fuel)
+def unmarshalMultiLineString : Order → Bytes → R (List (List (Pt UInt64))) :=
+  unmarshalMultiF wkb_lineStringType unmarshalPoints (fun ls => 16 * ls.length + 9)
+def scanLineString : Bytes → R (List (Pt UInt64) × Nat) :=
+  scanSingle wkb_lineStringType wkb_multiLineStringType unmarshalPoints unmarshalMultiLineString
 
-def unmarshalMultiPolygon (fuel : Nat) : Order → Bytes → R (List (List (List (Pt UInt64)))) :=
-  unmarshalMultiF wkb_polygonType wkb_multiPolygonType unmarshalPolygon polyStride fuel
-def scanPolygon (fuel : Nat) : Bytes → R (List (List (Pt UInt64)) × Nat) :=
-  scanSingle wkb_polygonType wkb_multiPolygonType unmarshalPolygon (unmarshalMultiPolygon fuel)
+def unmarshalMultiPolygon : Order → Bytes → R (List (List (List (Pt UInt64)))) :=
+  unmarshalMultiF wkb_polygonType unmarshalPolygon polyStride
+def scanPolygon : Bytes → R (List (List (Pt UInt64)) × Nat) :=
+  scanSingle wkb_polygonType wkb_multiPolygonType unmarshalPolygon unmarshalMultiPolygon
 
 /-! ### stream decoder (Decoder.Decode and the read* functions) -/
 
@@ -505,21 +567,24 @@ def collLoop (dec : Bytes → R (G × Nat × Bytes)) : Nat → Bytes → R (List
     | .err e => .err e
     | .panic m => .panic m
 
-/-- `readCollection`; `fuel` bounds collection nesting, `fuel = len(stream)` always suffices. -/
+/-- `readCollection(r, order, buf, depth)`.  The first argument is `MaxCollectionDepth - depth`, the
+    number of collection levels still allowed: `depth >= MaxCollectionDepth` (no level left) is
+    `ErrNestingTooDeep`, before anything is read; the members are decoded by a `Decoder` with
+    `depth + 1`, i.e. one level less. -/
 def readCollectionF : Nat → Order → Bytes → R (List G × Bytes)
-  | 0, _, _ => .panic "fuel"
-  | fuel+1, o, s =>
+  | 0, _, _ => .err .nestingTooDeep
+  | left+1, o, s =>
     match readU32 o s with
-    | .ok (num, s) => collLoop (decodeWith (readCollectionF fuel)) num s
+    | .ok (num, s) => collLoop (decodeWith (readCollectionF left)) num s
     | .err e => .err e
     | .panic m => .panic m
 
-/-- `Decoder.Decode`. -/
-def decodeStream (fuel : Nat) (s : Bytes) : R (G × Nat × Bytes) := decodeWith (readCollectionF fuel) s
+/-- `Decoder.Decode` of a decoder with `depth = MaxCollectionDepth - left`. -/
+def decodeStream (left : Nat) (s : Bytes) : R (G × Nat × Bytes) := decodeWith (readCollectionF left) s
 
-/-- `Decode()` on a fresh reader over `data`. -/
+/-- `Decode()` on a fresh reader over `data` (`NewDecoder`: depth 0). -/
 def decode (data : Bytes) : R (G × Nat) :=
-  match decodeStream data.length data with
+  match decodeStream wkb_MaxCollectionDepth data with
   | .ok (g, srid, _) => .ok (g, srid)
   | .err e => .err e
   | .panic m => .panic m
@@ -529,18 +594,17 @@ def decode (data : Bytes) : R (G × Nat) :=
 def unmarshal (data : Bytes) : R (G × Nat) :=
   match unmarshalBOT data with
   | .ok (o, typ, srid, geomData) =>
-    let fuel := data.length
     let wrap {β : Type} (r : R β) (f : β → G) : R (G × Nat) :=
       match r with
       | .ok x => .ok (f x, srid)
       | .err e => .err e
       | .panic m => .panic m
     if typ = wkb_pointType then wrap (unmarshalPoint o geomData) .point
-    else if typ = wkb_multiPointType then wrap (unmarshalMultiPoint fuel o geomData) .multiPoint
+    else if typ = wkb_multiPointType then wrap (unmarshalMultiPoint o geomData) .multiPoint
     else if typ = wkb_lineStringType then wrap (unmarshalPoints o geomData) .lineString
-    else if typ = wkb_multiLineStringType then wrap (unmarshalMultiLineString fuel o geomData) .multiLineString
+    else if typ = wkb_multiLineStringType then wrap (unmarshalMultiLineString o geomData) .multiLineString
     else if typ = wkb_polygonType then wrap (unmarshalPolygon o geomData) .polygon
-    else if typ = wkb_multiPolygonType then wrap (unmarshalMultiPolygon fuel o geomData) .multiPolygon
+    else if typ = wkb_multiPolygonType then wrap (unmarshalMultiPolygon o geomData) .multiPolygon
     else if typ = wkb_geometryCollectionType then
       match decode data with
       | .ok (g, _) => .ok (g, srid)
@@ -588,11 +652,10 @@ abbrev BoundFn := G → (Pt UInt64 × Pt UInt64)
 
 /-- The value `Scan` produces for a destination. -/
 def scanDest (bnd : BoundFn) (dest : Dest) (data : Bytes) : R (G × Nat) :=
-  let fuel := data.length
   match dest with
   | .any => unmarshal data
   | .point =>
-    match scanPoint fuel data with
+    match scanPoint data with
     | .ok (p, srid) => .ok (.point p, srid)
     | .err e => .err e
     | .panic m => .panic m
@@ -604,7 +667,7 @@ def scanDest (bnd : BoundFn) (dest : Dest) (data : Bytes) : R (G × Nat) :=
     | .err e => .err e
     | .panic m => .panic m
   | .lineString =>
-    match scanLineString fuel data with
+    match scanLineString data with
     | .ok (l, srid) => .ok (.lineString l, srid)
     | .err e => .err e
     | .panic m => .panic m
@@ -617,7 +680,7 @@ def scanDest (bnd : BoundFn) (dest : Dest) (data : Bytes) : R (G × Nat) :=
         | .err e => .err e
         | .panic m => .panic m
       else if typ = wkb_multiLineStringType then
-        match unmarshalMultiLineString fuel o gd with
+        match unmarshalMultiLineString o gd with
         | .ok ls => .ok (.multiLineString ls, srid)
         | .err e => .err e
         | .panic m => .panic m
@@ -631,7 +694,7 @@ def scanDest (bnd : BoundFn) (dest : Dest) (data : Bytes) : R (G × Nat) :=
     | .err e => .err e
     | .panic m => .panic m
   | .polygon =>
-    match scanPolygon fuel data with
+    match scanPolygon data with
     | .ok (p, srid) => .ok (.polygon p, srid)
     | .err e => .err e
     | .panic m => .panic m
@@ -644,7 +707,7 @@ def scanDest (bnd : BoundFn) (dest : Dest) (data : Bytes) : R (G × Nat) :=
         | .err e => .err e
         | .panic m => .panic m
       else if typ = wkb_multiPolygonType then
-        match unmarshalMultiPolygon fuel o gd with
+        match unmarshalMultiPolygon o gd with
         | .ok ps => .ok (.multiPolygon ps, srid)
         | .err e => .err e
         | .panic m => .panic m
@@ -870,6 +933,12 @@ def memberLoopAlloc {β : Type} (scan : Bytes → R (β × Nat)) (scanAlloc : By
        | _ => 0)
     | _ => 0
 
+/-- a member of a multi (`scanMember`): the plain decoder's allocations when the type is right -/
+def scanMemberAlloc (tSingle : Nat) (singleAlloc : Order → Bytes → Nat) (data : Bytes) : Nat :=
+  match unmarshalBOT data with
+  | .ok (o, typ, _, geomData) => if typ ≠ tSingle then 0 else singleAlloc o geomData
+  | _ => 0
+
 /-- `ScanPoint` / `ScanLineString` / `ScanPolygon`: whichever decoder the header selects. -/
 def scanSingleAlloc (tSingle tMulti : Nat) (singleAlloc multiAlloc : Order → Bytes → Nat) (data : Bytes) : Nat :=
   match unmarshalBOT data with
@@ -880,140 +949,23 @@ def scanSingleAlloc (tSingle tMulti : Nat) (singleAlloc multiAlloc : Order → B
   | _ => 0
 
 /-- `unmarshalMulti*`: `make(…, 0, min(num, MaxMultiAlloc))` of `sz`-byte elements BEFORE any member
-    is looked at, then the member loop (whose scans recurse into this function for a nested multi). -/
-def unmarshalMultiFAlloc {β : Type} (sz tSingle tMulti : Nat) (single : Order → Bytes → R β)
-    (singleAlloc : Order → Bytes → Nat) (stride : β → Nat) : Nat → Order → Bytes → Nat
-  | 0, _, _ => 0
-  | fuel+1, o, data =>
-    if lenLt data 4 then 0 else
-    sz * allocCap (rd32 o data) wkb_MaxMultiAlloc +
-    memberLoopAlloc (scanSingle tSingle tMulti single (unmarshalMultiF tSingle tMulti single stride fuel))
-      (scanSingleAlloc tSingle tMulti singleAlloc
-        (unmarshalMultiFAlloc sz tSingle tMulti single singleAlloc stride fuel))
-      stride (rd32 o data) (data.drop 4)
+    is looked at, then the member loop. -/
+def unmarshalMultiFAlloc {β : Type} (sz tSingle : Nat) (single : Order → Bytes → R β)
+    (singleAlloc : Order → Bytes → Nat) (stride : β → Nat) (o : Order) (data : Bytes) : Nat :=
+  if lenLt data 4 then 0 else
+  sz * allocCap (rd32 o data) wkb_MaxMultiAlloc +
+  memberLoopAlloc (scanMember tSingle single) (scanMemberAlloc tSingle singleAlloc) stride
+    (rd32 o data) (data.drop 4)
 
-/-! One-pass twins (result and accounting together) for the compiled driver: the definitions above
-    decode a member once for its result and once more at every enclosing level for its accounting, which
-    is cubic on the nested one-member multis that make the decoder itself quadratic.  Kernel-checked
-    `@[csimp]` equation; every theorem is about the definitions above. -/
+def unmarshalMultiPointAlloc : Order → Bytes → Nat :=
+  unmarshalMultiFAlloc szPoint wkb_pointType unmarshalPoint (fun _ _ => 0) (fun _ => 21)
 
-def memberLoopP {β : Type} (scanP : Bytes → R (β × Nat) × Nat) (stride : β → Nat) :
-    Nat → Bytes → R (List β) × Nat
-  | 0, _ => (.ok [], 0)
-  | n+1, data =>
-    match scanP data with
-    | (.ok (x, _), a) =>
-      (match sliceFrom data (stride x) with
-       | .ok rest =>
-         (match memberLoopP scanP stride n rest with
-          | (.ok xs, b) => (.ok (x :: xs), a + b)
-          | (.err e, b) => (.err e, a + b)
-          | (.panic s, b) => (.panic s, a + b))
-       | .err e => (.err e, a + 0)
-       | .panic s => (.panic s, a + 0))
-    | (.err e, a) => (.err e, a + 0)
-    | (.panic s, a) => (.panic s, a + 0)
+def unmarshalMultiLineStringAlloc : Order → Bytes → Nat :=
+  unmarshalMultiFAlloc szSlice wkb_lineStringType unmarshalPoints unmarshalPointsAlloc
+    (fun ls => 16 * ls.length + 9)
 
-theorem memberLoopP_eq {β : Type} (scan : Bytes → R (β × Nat)) (scanAlloc : Bytes → Nat)
-    (scanP : Bytes → R (β × Nat) × Nat) (stride : β → Nat) (h : ∀ d, scanP d = (scan d, scanAlloc d)) (n : Nat) :
-    ∀ data, memberLoopP scanP stride n data =
-      (memberLoop scan stride n data, memberLoopAlloc scan scanAlloc stride n data) := by
-  induction n with
-  | zero => intro data; rfl
-  | succ n ih =>
-    intro data
-    simp only [memberLoopP, memberLoop, memberLoopAlloc, h data]
-    cases scan data with
-    | ok xs =>
-      cases xs with
-      | mk x s =>
-        simp only []
-        cases sliceFrom data (stride x) with
-        | ok rest =>
-          simp only [ih rest]
-          cases memberLoop scan stride n rest <;> rfl
-        | err e => rfl
-        | panic m => rfl
-    | err e => rfl
-    | panic m => rfl
-
-def scanSingleP {β : Type} (tSingle tMulti : Nat) (single : Order → Bytes → R β)
-    (singleAlloc : Order → Bytes → Nat) (multiP : Order → Bytes → R (List β) × Nat) (data : Bytes) :
-    R (β × Nat) × Nat :=
-  match unmarshalBOT data with
-  | .ok (o, typ, srid, geomData) =>
-    if typ = tSingle then
-      ((match single o geomData with
-        | .ok p => .ok (p, srid)
-        | .err e => .err e
-        | .panic s => .panic s), singleAlloc o geomData)
-    else if typ = tMulti then
-      ((match (multiP o geomData).1 with
-        | .ok [p] => .ok (p, srid)
-        | .ok _ => .err .incorrectGeometry
-        | .err e => .err e
-        | .panic s => .panic s), (multiP o geomData).2)
-    else (.err .incorrectGeometry, 0)
-  | .err e => (.err e, 0)
-  | .panic s => (.panic s, 0)
-
-theorem scanSingleP_eq {β : Type} (tSingle tMulti : Nat) (single : Order → Bytes → R β)
-    (singleAlloc multiAlloc : Order → Bytes → Nat) (multi : Order → Bytes → R (List β))
-    (multiP : Order → Bytes → R (List β) × Nat) (h : ∀ o d, multiP o d = (multi o d, multiAlloc o d)) (data : Bytes) :
-    scanSingleP tSingle tMulti single singleAlloc multiP data =
-      (scanSingle tSingle tMulti single multi data, scanSingleAlloc tSingle tMulti singleAlloc multiAlloc data) := by
-  unfold scanSingleP scanSingle scanSingleAlloc
-  cases unmarshalBOT data with
-  | ok v =>
-    obtain ⟨o, typ, srid, gd⟩ := v
-    simp only [h]
-    split
-    · rfl
-    · split <;> rfl
-  | err e => rfl
-  | panic m => rfl
-
-def unmarshalMultiFP {β : Type} (sz tSingle tMulti : Nat) (single : Order → Bytes → R β)
-    (singleAlloc : Order → Bytes → Nat) (stride : β → Nat) : Nat → Order → Bytes → R (List β) × Nat
-  | 0, _, _ => (.panic "fuel", 0)
-  | fuel+1, o, data =>
-    if lenLt data 4 then (.err .notWKB, 0) else
-    let r := memberLoopP (scanSingleP tSingle tMulti single singleAlloc
-      (unmarshalMultiFP sz tSingle tMulti single singleAlloc stride fuel)) stride (rd32 o data) (data.drop 4)
-    (r.1, sz * allocCap (rd32 o data) wkb_MaxMultiAlloc + r.2)
-
-theorem unmarshalMultiFP_eq {β : Type} (sz tSingle tMulti : Nat) (single : Order → Bytes → R β)
-    (singleAlloc : Order → Bytes → Nat) (stride : β → Nat) (fuel : Nat) :
-    ∀ o data, unmarshalMultiFP sz tSingle tMulti single singleAlloc stride fuel o data =
-      (unmarshalMultiF tSingle tMulti single stride fuel o data,
-       unmarshalMultiFAlloc sz tSingle tMulti single singleAlloc stride fuel o data) := by
-  induction fuel with
-  | zero => intro o data; rfl
-  | succ fuel ih =>
-    intro o data
-    simp only [unmarshalMultiFP, unmarshalMultiF, unmarshalMultiFAlloc, lenLt_eq, decide_eq_true_eq]
-    split
-    · rfl
-    · rw [memberLoopP_eq _ _ _ _ (fun d => scanSingleP_eq _ _ _ _ _ _ _ ih d)]
-
-def unmarshalMultiFAllocFast {β : Type} (sz tSingle tMulti : Nat) (single : Order → Bytes → R β)
-    (singleAlloc : Order → Bytes → Nat) (stride : β → Nat) (fuel : Nat) (o : Order) (data : Bytes) : Nat :=
-  (unmarshalMultiFP sz tSingle tMulti single singleAlloc stride fuel o data).2
-
-@[csimp] theorem unmarshalMultiFAlloc_eq_fast : @unmarshalMultiFAlloc = @unmarshalMultiFAllocFast := by
-  funext β sz tSingle tMulti single singleAlloc stride fuel o data
-  simp only [unmarshalMultiFAllocFast, unmarshalMultiFP_eq]
-
-def unmarshalMultiPointAlloc (fuel : Nat) : Order → Bytes → Nat :=
-  unmarshalMultiFAlloc szPoint wkb_pointType wkb_multiPointType unmarshalPoint (fun _ _ => 0) (fun _ => 21) fuel
-
-def unmarshalMultiLineStringAlloc (fuel : Nat) : Order → Bytes → Nat :=
-  unmarshalMultiFAlloc szSlice wkb_lineStringType wkb_multiLineStringType unmarshalPoints unmarshalPointsAlloc
-    (fun ls => 16 * ls.length + 9) fuel
-
-def unmarshalMultiPolygonAlloc (fuel : Nat) : Order → Bytes → Nat :=
-  unmarshalMultiFAlloc szSlice wkb_polygonType wkb_multiPolygonType unmarshalPolygon unmarshalPolygonAlloc
-    polyStride fuel
+def unmarshalMultiPolygonAlloc : Order → Bytes → Nat :=
+  unmarshalMultiFAlloc szSlice wkb_polygonType unmarshalPolygon unmarshalPolygonAlloc polyStride
 
 /-! ##### stream path -/
 
@@ -1091,53 +1043,197 @@ def collLoopAlloc (dec : Bytes → R (G × Nat × Bytes)) (decAlloc : Bytes → 
     | .ok (_, _, s) => collLoopAlloc dec decAlloc n s
     | _ => 0
 
-/-- `readCollection`: `make(orb.Collection, 0, min(num, MaxMultiAlloc))`, then the loop. -/
+/-- `readCollection`: nothing when no level is left (`ErrNestingTooDeep` comes first); else
+    `make(orb.Collection, 0, min(num, MaxMultiAlloc))`, then the loop.  (The `&Decoder{…}` for the members
+    is 24 bytes per collection, within what `measuredBound` allows per input byte.) -/
 def readCollectionAllocF : Nat → Order → Bytes → Nat
   | 0, _, _ => 0
-  | fuel+1, o, s =>
+  | left+1, o, s =>
     match readU32 o s with
     | .ok (num, s) =>
       szIface * allocCap num wkb_MaxMultiAlloc +
-        collLoopAlloc (decodeWith (readCollectionF fuel)) (decodeWithAlloc (readCollectionAllocF fuel)) num s
+        collLoopAlloc (decodeWith (readCollectionF left)) (decodeWithAlloc (readCollectionAllocF left)) num s
     | _ => 0
 
+/-! #### recursion depth: how many `Decoder.Decode` activations are on the Go stack at the same time
+
+  The only recursion left in the two decoders is `Decoder.Decode` → `readCollection` → `Decode` of a
+  member.  The functions below follow the decoder exactly as the allocation accounting does and return
+  the largest number of simultaneously active `Decode` calls, for succeeding and failing decodes. -/
+
+def collLoopDepth (dec : Bytes → R (G × Nat × Bytes)) (decDepth : Bytes → Nat) : Nat → Bytes → Nat
+  | 0, _ => 0
+  | n+1, s =>
+    max (decDepth s)
+      (match dec s with
+       | .ok (_, _, s) => collLoopDepth dec decDepth n s
+       | _ => 0)
+
+/-- one `Decode` activation, plus what `readCollection` stacks on top of it -/
+def decodeWithDepth (cd : Order → Bytes → Nat) (s : Bytes) : Nat :=
+  1 +
+  match readBOT s with
+  | .ok (o, typ, _, s) => if typ = wkb_geometryCollectionType then cd o s else 0
+  | _ => 0
+
+def readCollectionDepthF : Nat → Order → Bytes → Nat
+  | 0, _, _ => 0
+  | left+1, o, s =>
+    match readU32 o s with
+    | .ok (num, s) =>
+      collLoopDepth (decodeWith (readCollectionF left)) (decodeWithDepth (readCollectionDepthF left)) num s
+    | _ => 0
+
+/-! #### one-pass twins for the compiled driver
+
+  `readCollectionAllocF` and `readCollectionDepthF` decode every member once for their own figure and once
+  more at every enclosing level to learn where the next member starts: quadratic in the nesting depth,
+  minutes for the 10000 levels the decoders accept.  `readCollectionFP` computes result, accounting and
+  depth together; kernel-checked `@[csimp]` equations make the compiled driver run it, while every
+  theorem is about the definitions above. -/
+
+def collLoopP (decP : Bytes → R (G × Nat × Bytes) × Nat × Nat) : Nat → Bytes → R (List G × Bytes) × Nat × Nat
+  | 0, s => (.ok ([], s), 0, 0)
+  | n+1, s =>
+    match decP s with
+    | (.ok (g, _, s'), a, d) =>
+      (match collLoopP decP n s' with
+       | (.ok (gs, s''), a2, d2) => (.ok (g :: gs, s''), a + a2, max d d2)
+       | (.err e, a2, d2) => (.err e, a + a2, max d d2)
+       | (.panic m, a2, d2) => (.panic m, a + a2, max d d2))
+    | (.err e, a, d) => (.err e, a + 0, max d 0)
+    | (.panic m, a, d) => (.panic m, a + 0, max d 0)
+
+/-- for every type but a collection the collection reader is never consulted -/
+def decodeWithP (collP : Order → Bytes → R (List G × Bytes) × Nat × Nat) (s : Bytes) :
+    R (G × Nat × Bytes) × Nat × Nat :=
+  match readBOT s with
+  | .ok (o, typ, srid, s') =>
+    if typ = wkb_geometryCollectionType then
+      match collP o s' with
+      | (.ok (gs, s''), a, d) => (.ok (.collection gs, srid, s''), szBuf + a, 1 + d)
+      | (.err e, a, d) => (.err e, szBuf + a, 1 + d)
+      | (.panic m, a, d) => (.panic m, szBuf + a, 1 + d)
+    else (decodeWith (fun _ _ => .err .eof) s, decodeWithAlloc (fun _ _ => 0) s, 1)
+  | _ => (decodeWith (fun _ _ => .err .eof) s, decodeWithAlloc (fun _ _ => 0) s, 1)
+
+def readCollectionFP : Nat → Order → Bytes → R (List G × Bytes) × Nat × Nat
+  | 0, _, _ => (.err .nestingTooDeep, 0, 0)
+  | left+1, o, s =>
+    match readU32 o s with
+    | .ok (num, s') =>
+      let r := collLoopP (decodeWithP (readCollectionFP left)) num s'
+      (r.1, szIface * allocCap num wkb_MaxMultiAlloc + r.2.1, r.2.2)
+    | .err e => (.err e, 0, 0)
+    | .panic m => (.panic m, 0, 0)
+
+theorem collLoopP_eq (dec : Bytes → R (G × Nat × Bytes)) (decAlloc decDepth : Bytes → Nat)
+    (decP : Bytes → R (G × Nat × Bytes) × Nat × Nat)
+    (h : ∀ t, decP t = (dec t, decAlloc t, decDepth t)) (n : Nat) :
+    ∀ s, collLoopP decP n s = (collLoop dec n s, collLoopAlloc dec decAlloc n s, collLoopDepth dec decDepth n s) := by
+  induction n with
+  | zero => intro s; rfl
+  | succ n ih =>
+    intro s
+    simp only [collLoopP, collLoop, collLoopAlloc, collLoopDepth, h s]
+    cases dec s with
+    | ok v =>
+      obtain ⟨g, sr, s'⟩ := v
+      simp only [ih s']
+      cases collLoop dec n s' with
+      | ok w => obtain ⟨gs, s''⟩ := w; rfl
+      | err e => rfl
+      | panic m => rfl
+    | err e => rfl
+    | panic m => rfl
+
+theorem decodeWithP_eq (coll : Order → Bytes → R (List G × Bytes)) (collAlloc cd : Order → Bytes → Nat)
+    (collP : Order → Bytes → R (List G × Bytes) × Nat × Nat)
+    (h : ∀ o t, collP o t = (coll o t, collAlloc o t, cd o t)) (s : Bytes) :
+    decodeWithP collP s = (decodeWith coll s, decodeWithAlloc collAlloc s, decodeWithDepth cd s) := by
+  unfold decodeWithP decodeWith decodeWithAlloc decodeWithDepth
+  cases readBOT s with
+  | ok v =>
+    obtain ⟨o, typ, srid, s'⟩ := v
+    by_cases ht : typ = wkb_geometryCollectionType
+    · subst ht
+      simp only [h, if_true]
+      have n1 : ¬ wkb_geometryCollectionType = wkb_pointType := by decide
+      have n2 : ¬ wkb_geometryCollectionType = wkb_multiPointType := by decide
+      have n3 : ¬ wkb_geometryCollectionType = wkb_lineStringType := by decide
+      have n4 : ¬ wkb_geometryCollectionType = wkb_multiLineStringType := by decide
+      have n5 : ¬ wkb_geometryCollectionType = wkb_polygonType := by decide
+      have n6 : ¬ wkb_geometryCollectionType = wkb_multiPolygonType := by decide
+      simp only [if_neg n1, if_neg n2, if_neg n3, if_neg n4, if_neg n5, if_neg n6, if_true]
+      cases coll o s' with
+      | ok w => obtain ⟨gs, s''⟩ := w; rfl
+      | err e => rfl
+      | panic m => rfl
+    · simp only [if_neg ht]
+  | err e => rfl
+  | panic m => rfl
+
+theorem readCollectionFP_eq (left : Nat) : ∀ o s,
+    readCollectionFP left o s =
+      (readCollectionF left o s, readCollectionAllocF left o s, readCollectionDepthF left o s) := by
+  induction left with
+  | zero => intro o s; rfl
+  | succ left ih =>
+    intro o s
+    simp only [readCollectionFP, readCollectionF, readCollectionAllocF, readCollectionDepthF]
+    cases readU32 o s with
+    | ok v =>
+      obtain ⟨num, s'⟩ := v
+      simp only [collLoopP_eq _ _ _ _ (decodeWithP_eq _ _ _ _ ih)]
+    | err e => rfl
+    | panic m => rfl
+
+def readCollectionAllocFFast (left : Nat) (o : Order) (s : Bytes) : Nat := (readCollectionFP left o s).2.1
+def readCollectionDepthFFast (left : Nat) (o : Order) (s : Bytes) : Nat := (readCollectionFP left o s).2.2
+
+@[csimp] theorem readCollectionAllocF_eq_fast : @readCollectionAllocF = @readCollectionAllocFFast := by
+  funext left o s
+  simp only [readCollectionAllocFFast, readCollectionFP_eq]
+
+@[csimp] theorem readCollectionDepthF_eq_fast : @readCollectionDepthF = @readCollectionDepthFFast := by
+  funext left o s
+  simp only [readCollectionDepthFFast, readCollectionFP_eq]
+
 /-- `Decode()` on a fresh reader over `data`. -/
-def decodeAlloc (data : Bytes) : Nat := decodeWithAlloc (readCollectionAllocF data.length) data
+def decodeAlloc (data : Bytes) : Nat := decodeWithAlloc (readCollectionAllocF wkb_MaxCollectionDepth) data
 
 /-- `Unmarshal`. -/
 def unmarshalAlloc (data : Bytes) : Nat :=
   match unmarshalBOT data with
   | .ok (o, typ, _, geomData) =>
-    let fuel := data.length
     if typ = wkb_pointType then 0
-    else if typ = wkb_multiPointType then unmarshalMultiPointAlloc fuel o geomData
+    else if typ = wkb_multiPointType then unmarshalMultiPointAlloc o geomData
     else if typ = wkb_lineStringType then unmarshalPointsAlloc o geomData
-    else if typ = wkb_multiLineStringType then unmarshalMultiLineStringAlloc fuel o geomData
+    else if typ = wkb_multiLineStringType then unmarshalMultiLineStringAlloc o geomData
     else if typ = wkb_polygonType then unmarshalPolygonAlloc o geomData
-    else if typ = wkb_multiPolygonType then unmarshalMultiPolygonAlloc fuel o geomData
+    else if typ = wkb_multiPolygonType then unmarshalMultiPolygonAlloc o geomData
     else if typ = wkb_geometryCollectionType then decodeAlloc data
     else 0
   | _ => 0
 
 /-- `wkbcommon.Scan` after the framing has been removed: the decoder the destination selects. -/
 def scanDestAlloc (dest : Dest) (data : Bytes) : Nat :=
-  let fuel := data.length
   match dest with
   | .any | .multiPoint | .ring | .bound => unmarshalAlloc data
   | .point =>
-    scanSingleAlloc wkb_pointType wkb_multiPointType (fun _ _ => 0) (unmarshalMultiPointAlloc fuel) data
+    scanSingleAlloc wkb_pointType wkb_multiPointType (fun _ _ => 0) unmarshalMultiPointAlloc data
   | .lineString =>
     scanSingleAlloc wkb_lineStringType wkb_multiLineStringType unmarshalPointsAlloc
-      (unmarshalMultiLineStringAlloc fuel) data
+      unmarshalMultiLineStringAlloc data
   | .multiLineString =>
     scanSingleAlloc wkb_lineStringType wkb_multiLineStringType unmarshalPointsAlloc
-      (unmarshalMultiLineStringAlloc fuel) data
+      unmarshalMultiLineStringAlloc data
   | .polygon =>
     scanSingleAlloc wkb_polygonType wkb_multiPolygonType unmarshalPolygonAlloc
-      (unmarshalMultiPolygonAlloc fuel) data
+      unmarshalMultiPolygonAlloc data
   | .multiPolygon =>
     scanSingleAlloc wkb_polygonType wkb_multiPolygonType unmarshalPolygonAlloc
-      (unmarshalMultiPolygonAlloc fuel) data
+      unmarshalMultiPolygonAlloc data
   | .collection => decodeAlloc data
 
 /-! ##### what the property promises: at most proportional to the input, plus a fixed cap -/
@@ -1148,7 +1244,19 @@ def allocPerByte : Nat := 200
 /-- the fixed part: one open `MultiPolygon` + `Polygon` + ring, each at its cap, plus the buffer -/
 def allocFixed : Nat := szBuf + 2 * (szSlice * wkb_MaxMultiAlloc) + szPoint * wkb_MaxPointsAlloc
 
-/-! ##### the family of inputs on which the byte-slice multi decoders are quadratic -/
+/-! #### recursion depth, entry points (`decodeWithDepth`, `readCollectionDepthF`: defined above, next to the accounting) -/
+
+/-- `Decode()` on a fresh reader over `data`. -/
+def decodeDepth (data : Bytes) : Nat := decodeWithDepth (readCollectionDepthF wkb_MaxCollectionDepth) data
+
+/-- `Unmarshal`: only a collection reaches the recursive decoder. -/
+def unmarshalDepth (data : Bytes) : Nat :=
+  match unmarshalBOT data with
+  | .ok (_, typ, _, _) => if typ = wkb_geometryCollectionType then decodeDepth data else 0
+  | _ => 0
+
+/-! ##### the family of inputs on which the byte-slice multi decoders WERE quadratic (before members
+    were restricted to the plain type): now rejected at the first nested header -/
 
 /-- `k` nested one-member multi headers of type `t` (little endian). -/
 def nestHeaders (t : Nat) : Nat → Bytes
@@ -1156,8 +1264,7 @@ def nestHeaders (t : Nat) : Nat → Bytes
   | k+1 => (1 :: u32 .little t ++ u32 .little 1) ++ nestHeaders t k
 
 /-- A multi of type `t` claiming `k+1` members, followed by `k` nested one-member multi headers and an
-    empty member of type `leaf` (`LINESTRING EMPTY` / a polygon without rings): member `i` is read as
-    the chain of the remaining `k-i` headers, and the next member starts 9 bytes later. -/
+    empty member of type `leaf` (`LINESTRING EMPTY` / a polygon without rings). -/
 def nestedMultiInput (t leaf k : Nat) : Bytes :=
   (1 :: u32 .little t ++ u32 .little (k + 1)) ++ nestHeaders t k ++ (1 :: u32 .little leaf ++ u32 .little 0)
 
